@@ -1548,6 +1548,11 @@ M("C08", "greenhouse-fat-times-area-of-kcals-lane", PARF,
 M("C08", "R-greenhouse-monthly-kcals-renamed", GHF,
   '''        MONTHLY_KCALS = np.mean(months_cycle) / self.TOTAL_CROP_AREA''', '''        per_ha = np.mean(months_cycle)
         MONTHLY_KCALS = per_ha / self.TOTAL_CROP_AREA''', None)
+M("C08", "year1-before-may-counts-five-months", OCF, '        if country_iso3 == "ZAF":\n            harvest_before_may_this_country = 1\n        elif country_iso3 == "JPN":\n            harvest_before_may_this_country = 0\n        elif country_iso3 == "PRK":\n            harvest_before_may_this_country = 0\n        elif country_iso3 == "KOR":\n            harvest_before_may_this_country = 0\n        else:\n            harvest_before_may_this_country = sum(seasonality_values[:4])\n', '        exceptions = {"ZAF": 1, "JPN": 0, "PRK": 0, "KOR": 0}\n        harvest_before_may_this_country = exceptions.get(\n            country_iso3, sum(seasonality_values[:5])\n        )\n', "C08.Y1")
+M("C08", "R-year1-exceptions-as-dict-with-default", OCF, '        if country_iso3 == "ZAF":\n            harvest_before_may_this_country = 1\n        elif country_iso3 == "JPN":\n            harvest_before_may_this_country = 0\n        elif country_iso3 == "PRK":\n            harvest_before_may_this_country = 0\n        elif country_iso3 == "KOR":\n            harvest_before_may_this_country = 0\n        else:\n            harvest_before_may_this_country = sum(seasonality_values[:4])\n', '        exceptions = {"ZAF": 1, "JPN": 0, "PRK": 0, "KOR": 0}\n        harvest_before_may_this_country = exceptions.get(\n            country_iso3, sum(seasonality_values[:4])\n        )\n', None)
+M("C08", "year1-ratio-not-normalised", OCF,
+  '''                fraction_continued_yields = ratio_yields_nw / fraction_harvest_after_may''',
+  '''                fraction_continued_yields = ratio_yields_nw''', "C08.Y1")
 # ---------------------------------------------------------------------------- C09
 M("C09", "revert-F3-no-relocation-arm-forgets-greenhouses", OCF,
   '''                crops_produced = np.multiply(
